@@ -61,6 +61,12 @@ def plan(seed, subbatch):
             ))
             members = [cons, src] if cfg.random() < 0.5 else [src, cons]
         hexcfg = {"timeframe_fill": fill}
+    if sub_rng(seed, "ctype").random() < 0.15:
+        # a candlestick type is a configuration like any other: closed converted candles are final too
+        if kind == "indicator":
+            members[0]["common"]["candlestick_type"] = "HA"
+        else:
+            hexcfg["candlestick_type"] = "HA"
     n = planlib.pick_n(cfg, (2, 12), (5, 50), (20, 160))
     long_history = kind == "indicator" and cfg.random() < (0.04 if planlib.thorough() else 0.012)
     if long_history:
